@@ -29,14 +29,9 @@ def hasRetrConns : List (FieldConnection × FieldNode) → Bool
   | (c, n) :: rest => c.hasRetr || hasRetrNode n || hasRetrConns rest
 end
 
-mutual
-/-- Does some field below the node have an enum literal among its arguments (N-2's trigger)? -/
-def hasEnumNode : FieldNode → Bool
-  | .mk _ _ _ _ _ _ conns _ => hasEnumConns conns
-def hasEnumConns : List (FieldConnection × FieldNode) → Bool
-  | [] => false
-  | (c, n) :: rest => argsHaveEnum c.arguments || hasEnumNode n || hasEnumConns rest
-end
+/- (History: `hasEnumNode` / `hasEnumConns`, "some field below has an enum literal among its
+arguments" — N-2's trigger — were defined here and threaded through the two theorems below as a second
+flag until the repair of N-2 / F-C10-2.) -/
 
 mutual
 theorem fillNode_sat {S : SchemaView} (hS : ValidSchemaView S) :
@@ -44,8 +39,8 @@ theorem fillNode_sat {S : SchemaView} (hS : ValidSchemaView S) :
       st.Inv → 0 < st.outStack.length → CD.Inv S st cd → (∀ v ∈ cd.vertices, v.vid ≠ cur) →
       cur < st.nextVid → S.isVertexType post = true → node.coercedTo.getD pre = post →
       ValidNode S post node →
-      Sat (FillSite (hasRetrNode node) (hasEnumNode node)) (fillNode S cur pre post node st cd)
-        (fun r => FillPost S (hasEnumNode node) st cd r.1 r.2.1 (r.2.2 = []) ∧
+      Sat (FillSite (hasRetrNode node)) (fillNode S cur pre post node st cd)
+        (fun r => FillPost S st cd r.1 r.2.1 (r.2.2 = []) ∧
           cur ∈ r.2.1.vertices.map (·.vid))
   | .mk name alias coercedTo filters outputs tags conns tg, cur, pre, post, st, cd,
     hinv, hout, hcd, hfresh, hlt, hvt, hpost, hvalid => by
@@ -90,12 +85,11 @@ theorem fillNode_sat {S : SchemaView} (hS : ValidSchemaView S) :
     have hconns : ValidConns S post conns := by simpa [ValidNode] using hvalid
     refine ((fillConnections_sat hS conns cur post t.fields st
       { cd with vertices := cd.vertices ++ [rec0] } [] hinv hout hcd1 hcur ⟨t, ht, rfl⟩
-      hconns).monoK (fun _ h => h.mono (by simp [hasRetrNode]) (by simp [hasEnumNode]))).mono
+      hconns).monoK (fun _ h => h.mono (by simp [hasRetrNode]))).mono
       fun r hr => ?_
     obtain ⟨more, hmore, hpost'⟩ := hr
     have hiff : r.2.2 = [] → more = [] := by intro h; simpa [hmore] using h
     refine ⟨⟨hpost'.step.weaken hiff, hpost'.cdInv, ?_, ?_, fun h => hpost'.outs (hiff h),
-      fun e he => by simpa [hasEnumNode] using hpost'.flag e he,
       fun h => (by simpa using hpost'.tops (hiff h))⟩, ?_⟩
     · intro v hv; exact hpost'.verts v (List.mem_append_left _ hv)
     · intro x hx
@@ -111,10 +105,10 @@ theorem fillConnections_sat {S : SchemaView} (hS : ValidSchemaView S) :
       st.Inv → 0 < st.outStack.length → CD.Inv S st cd →
       (∃ v0 ∈ cd.vertices, v0.vid = cur ∧ v0.postType = postType) →
       (∃ t, S.vertexType postType = some t ∧ defined = t.fields) → ValidConns S postType l →
-      Sat (FillSite (hasRetrConns l) (hasEnumConns l))
+      Sat (FillSite (hasRetrConns l))
         (fillConnections S cur postType defined l st cd errs)
         (fun r => ∃ more, r.2.2 = errs ++ more ∧
-          FillPost S (hasEnumConns l) st cd r.1 r.2.1 (more = []))
+          FillPost S st cd r.1 r.2.1 (more = []))
   | [], cur, postType, defined, st, cd, errs, hinv, _, hcd, _, _, _ => by
     unfold fillConnections
     exact ⟨[], by simp, FillPost.refl hinv hcd _⟩
@@ -126,17 +120,14 @@ theorem fillConnections_sat {S : SchemaView} (hS : ValidSchemaView S) :
     -- the continuation: the remaining connections
     have hk : ∀ (st3 : St) (cd3 : CD) (e : List FrontErr), st3.Inv → 0 < st3.outStack.length →
         CD.Inv S st3 cd3 → (∃ v0 ∈ cd3.vertices, v0.vid = cur ∧ v0.postType = postType) →
-        Sat (FillSite (hasRetrConns ((conn, sub) :: rest)) (hasEnumConns ((conn, sub) :: rest)))
+        Sat (FillSite (hasRetrConns ((conn, sub) :: rest)))
           (fillConnections S cur postType defined rest st3 cd3 (errs ++ e))
           (fun r => ∃ more, r.2.2 = (errs ++ e) ++ more ∧
-            FillPost S (hasEnumConns ((conn, sub) :: rest)) st3 cd3 r.1 r.2.1 (more = [])) :=
+            FillPost S st3 cd3 r.1 r.2.1 (more = [])) :=
       fun st3 cd3 e h3 ho3 hc3 hcur3 =>
         ((fillConnections_sat hS rest cur postType defined st3 cd3 (errs ++ e) h3 ho3 hc3 hcur3
           ⟨t, ht, hdefined⟩ hrest).monoK (fun _ h => h.mono (by
-            intro h'; simp [hasRetrConns, h']) (by intro h'; simp [hasEnumConns, h']))).mono
-          fun r hr => by
-            obtain ⟨more, hm, hp⟩ := hr
-            exact ⟨more, hm, hp.monoFlag (by intro h'; simp [hasEnumConns, h'])⟩
+            intro h'; simp [hasRetrConns, h'])))
     unfold fillConnections
     by_cases htn : sub.name = TYPENAME
     · -- `__typename`: a property
@@ -160,9 +151,8 @@ theorem fillConnections_sat {S : SchemaView} (hS : ValidSchemaView S) :
         left
         rw [hf, ← hv0c]
         exact List.mem_map_of_mem (f := (·.vid)) hv0
-      have hpost1 : FillPost S (hasEnumConns ((conn, sub) :: rest)) st cd r.1 r.2.1 True := by
-        refine ⟨hstep, hcdr, fun v hv => by rw [hvr]; exact hv, ?_, fun _ => ?_,
-          fun e he => Or.inl (by rw [her] at he; exact he), fun _ => ?_⟩
+      have hpost1 : FillPost S st cd r.1 r.2.1 True := by
+        refine ⟨hstep, hcdr, fun v hv => by rw [hvr]; exact hv, ?_, fun _ => ?_, fun _ => ?_⟩
         · intro x hx; simpa [cdVids, hvr, hfr] using hx
         · exact hnew.trans (OutNew.refl _ _) hcurvid (fun _ h => h)
         · exact htopn.trans (TopNew.refl _ _) hcurvid (fun _ h => h)
@@ -211,9 +201,7 @@ theorem fillConnections_sat {S : SchemaView} (hS : ValidSchemaView S) :
         -- the edge's own processing
         have hinner : ∃ cdIn, (∀ x ∈ cd.vertices, x ∈ cdIn.vertices) ∧
             (∀ x ∈ cdVids cd, x ∈ cdVids cdIn) ∧
-            (∀ e ∈ cdIn.edges, e ∈ cd.edges ∨ (argsHaveEnum e.conn.arguments = true →
-              hasEnumConns ((conn, sub) :: rest) = true)) ∧
-            Sat (FillSite (hasRetrConns ((conn, sub) :: rest)) (hasEnumConns ((conn, sub) :: rest)))
+            Sat (FillSite (hasRetrConns ((conn, sub) :: rest)))
               (match conn.fold with
                | some fg =>
                  let e1 := (if conn.optional then [FrontErr.UnsupportedDirectiveOnFoldedEdge] else []) ++
@@ -231,25 +219,23 @@ theorem fillConnections_sat {S : SchemaView} (hS : ValidSchemaView S) :
                  else
                    fillNode S st.nextVid fd.ty.base (sub.coercedTo.getD fd.ty.base) sub st1
                      { cd with edges := cd.edges ++ [⟨st.nextEid, cur, st.nextVid, conn⟩] })
-              (fun r => FillPost S (hasEnumConns ((conn, sub) :: rest)) st1 cdIn r.1 r.2.1
+              (fun r => FillPost S st1 cdIn r.1 r.2.1
                 (r.2.2 = [])) := by
           cases hf : conn.fold with
           | some fg =>
-            refine ⟨cd, fun _ h => h, fun _ h => h, fun _ h => Or.inl h, ?_⟩
+            refine ⟨cd, fun _ h => h, fun _ h => h, ?_⟩
             simp only
             rw [getEdgeDefinition_of_field hconn_field]
             simp only [bind_ok]
-            have hsubretr : ∀ {s : Site}, FillSite (hasRetrNode sub) (hasEnumNode sub) s →
-                FillSite (hasRetrConns ((conn, sub) :: rest)) (hasEnumConns ((conn, sub) :: rest)) s :=
+            have hsubretr : ∀ {s : Site}, FillSite (hasRetrNode sub) s →
+                FillSite (hasRetrConns ((conn, sub) :: rest)) s :=
               fun h => h.mono (by intro h'; simp [hasRetrConns, h'])
-                (by intro h'; simp [hasEnumConns, h'])
-            have hfgretr : ∀ {s : Site}, FillSite fg.hasRetr (hasEnumNode sub) s →
-                FillSite (hasRetrConns ((conn, sub) :: rest)) (hasEnumConns ((conn, sub) :: rest)) s :=
+            have hfgretr : ∀ {s : Site}, FillSite fg.hasRetr s →
+                FillSite (hasRetrConns ((conn, sub) :: rest)) s :=
               fun h => h.mono (by
                 intro h'; simp [hasRetrConns, FieldConnection.hasRetr, hf, h'])
-                (by intro h'; simp [hasEnumConns, h'])
             refine Sat.bind ((makeEdgeParameters_sat fd _ (hS.paramsDistinct t htmem fd hfdmem)).monoK
-              (fun _ h => Or.inl (Or.inr ⟨h.1, by simp [hasEnumConns, h.2]⟩)))
+              (fun _ h => h.elim))
               fun paramErrs _ => ?_
             split
             · rename_i hne
@@ -260,7 +246,7 @@ theorem fillConnections_sat {S : SchemaView} (hS : ValidSchemaView S) :
                 have : paramErrs = [] := (List.append_eq_nil_iff.mp h).2
                 simp [this] at hne
               exact ⟨St.Step.refl h1inv _, hcd_st1, fun _ h => h, fun _ h => h,
-                fun h => absurd h hfalse, fun _ h => Or.inl h, fun h => absurd h hfalse⟩
+                fun h => absurd h hfalse, fun h => absurd h hfalse⟩
             · obtain ⟨hfe_inv, hfe_path, hfe_out, hfe_vs, hfe_nv, hfe_ne, hfe_pf, hfe_go⟩ :=
                 foldEnter_inv h1inv st.nextVid
               have hfe_outlen : 0 < (foldEnter st1 st.nextVid).outStack.length := by
@@ -271,17 +257,11 @@ theorem fillConnections_sat {S : SchemaView} (hS : ValidSchemaView S) :
               refine Sat.bind ((fillNode_sat hS sub st.nextVid fd.ty.base _ _ CD.empty hfe_inv
                 hfe_outlen hempty (by simp [CD.empty]) (by rw [hfe_nv, h1nv']; exact Nat.lt_succ_self _)
                 hedge rfl hsubvalid).monoK (fun _ h => hsubretr h)) fun r hr => ?_
-              exact ((foldAfterFill_sat hS h1inv h1out' hcd_st1 st.nextVid fg st.nextEid sub.name
-                sub.alias _ _ r hr.1 hr.2).monoK (fun _ h => hfgretr h)).mono
-                (fun _ h => h.monoFlag (by intro h'; simp [hasEnumConns, h']))
+              exact (foldAfterFill_sat hS h1inv h1out' hcd_st1 st.nextVid fg st.nextEid sub.name
+                sub.alias _ _ r hr.1 hr.2).monoK (fun _ h => hfgretr h)
           | none =>
             refine ⟨{ cd with edges := cd.edges ++ [⟨st.nextEid, cur, st.nextVid, conn⟩] },
-              fun _ h => h, fun _ h => h, ?_, ?_⟩
-            · intro e he
-              rcases List.mem_append.mp he with h | h
-              · exact Or.inl h
-              · simp at h; subst h
-                right; intro h'; simp [hasEnumConns, h']
+              fun _ h => h, fun _ h => h, ?_⟩
             simp only
             have hany : cd.edges.any (fun e => e.eid == st.nextEid) = false := by
               rw [List.any_eq_false]
@@ -305,15 +285,14 @@ theorem fillConnections_sat {S : SchemaView} (hS : ValidSchemaView S) :
                   exact ⟨v0, hv0, hv0c, fd, by rw [hv0p]; exact hconn_field⟩
             refine ((fillNode_sat hS sub st.nextVid fd.ty.base _ st1 _ h1inv h1out' hcd2 ?_
               (by rw [h1nv']; exact Nat.lt_succ_self _) hedge rfl hsubvalid).monoK
-              (fun _ h => h.mono (by intro h'; simp [hasRetrConns, h'])
-                (by intro h'; simp [hasEnumConns, h']))).mono
-              fun r hr => hr.1.monoFlag (by intro h'; simp [hasEnumConns, h'])
+              (fun _ h => h.mono (by intro h'; simp [hasRetrConns, h']))).mono
+              fun r hr => hr.1
             intro v hv
             exact Nat.ne_of_lt (hcd.vidsLt v hv)
-        obtain ⟨cdIn, hverts, hvids, hflagIn, hsat⟩ := hinner
+        obtain ⟨cdIn, hverts, hvids, hsat⟩ := hinner
         exact edgeTail_sat hinv hout h1inv h1vs (fun p hp => by rw [h1pf]; exact List.mem_append_left _ hp)
           h1path h1out (by rw [h1nv']; exact Nat.le_succ _) (by rw [h1ne']; exact Nat.le_succ _) h1go
-          hverts hvids hflagIn ⟨v0, hv0, hv0c, hv0p⟩ _ hsat
+          hverts hvids ⟨v0, hv0, hv0c, hv0p⟩ _ hsat
           (fun st3 cd3 e => fillConnections S cur postType defined rest st3 cd3 e) errs hk
       · -- a property
         rw [if_neg hedge]
@@ -344,9 +323,8 @@ theorem fillConnections_sat {S : SchemaView} (hS : ValidSchemaView S) :
           left
           rw [hf, ← hv0c]
           exact List.mem_map_of_mem (f := (·.vid)) hv0
-        have hpost1 : FillPost S (hasEnumConns ((conn, sub) :: rest)) st cd r.1 r.2.1 True := by
-          refine ⟨hstep, hcdr, fun v hv => by rw [hvr]; exact hv, ?_, fun _ => ?_,
-            fun e he => Or.inl (by rw [her] at he; exact he), fun _ => ?_⟩
+        have hpost1 : FillPost S st cd r.1 r.2.1 True := by
+          refine ⟨hstep, hcdr, fun v hv => by rw [hvr]; exact hv, ?_, fun _ => ?_, fun _ => ?_⟩
           · intro x hx; simpa [cdVids, hvr, hfr] using hx
           · exact hnew.trans (OutNew.refl _ _) hcurvid (fun _ h => h)
           · exact htopn.trans (TopNew.refl _ _) hcurvid (fun _ h => h)
